@@ -777,14 +777,33 @@ def ln1(ctx, R):
         val = sy.expr(n.value, env)
         tgt = n.target if isinstance(n, ast.AugAssign) else n.targets[0]
         base = sy.expr(tgt.value, env)
-        b = match(("call", nsv.qual, (W("obj"), W("seg")), ()), val)
-        good = isinstance(n, ast.AugAssign) and isinstance(n.op, ast.Add) and b is not None and b["obj"][0] in ("bv", "param", "item") \
-            and mentions(base, b["obj"]) and f.module.name == "reader"
+        vals = [(val, base, f)]
+        if val[0] == "param":
+            # the amount is a parameter of a small method of the metadata object: look at what the callers pass
+            from .sem import calls_to as _calls_to, call_arg as _call_arg
+            vals = []
+            for g in prog.functions.values():
+                if g.module.name != "reader":
+                    continue
+                for c in _calls_to(prog, g, f.qual, g.cls):
+                    sg = Sym(prog, g, g.cls, stack=(nsv.qual,))
+                    e2, _ = sg.env_at(c)
+                    a = _call_arg(prog, c, f, val[1], sg, e2)
+                    recv = sg.expr(c.func.value, e2) if isinstance(c.func, ast.Attribute) else ("?",)
+                    vals.append((a, recv, g))
+        good = isinstance(n, ast.AugAssign) and isinstance(n.op, ast.Add) and bool(vals) and f.module.name == "reader"
+        shown = val
+        for a, b_, g in vals:
+            b = match(("call", nsv.qual, (W("obj"), W("seg")), ()), a) if a is not None else None
+            if not (b is not None and b["obj"][0] in ("bv", "param", "item") and mentions(b_, b["obj"])):
+                good = False
+                shown = a
         R.check(good, key, f.where(n), "accumulates _number_of_segment_values(<this object>, <this segment>)",
                 "the channel length is updated by `%s` (= %s), not by _number_of_segment_values applied to the current object and segment: len(channel) "
-                "and the number of values actually delivered (which the lazy index computes through that function) can drift apart" % (unparse(n), show(val)[:80]))
-    from .sem import calls_to
-    calls = calls_to(prog, bi, nsv.qual)
+                "and the number of values actually delivered (which the lazy index computes through that function) can drift apart" % (
+                    unparse(n), show(shown)[:80] if shown is not None else None))
+    from .region import call_reaches
+    calls = [c for c in walk_body(bi.node) if isinstance(c, ast.Call) and call_reaches(ctx, bi, c, {nsv.qual})]
     R.check(bool(calls), "reader.TdmsReader._build_index::uses the funnel", bi.where(), "lazy index counts through _number_of_segment_values",
             "the lazy offset index computes per-segment counts by other means than _number_of_segment_values")
     # no other place multiplies number_values by a chunk count
